@@ -10,6 +10,11 @@ def make_sentence(rng, tag):
     return (gen.tag_block(tag) + s) if tag is not None else s
 
 
+# group ids: boundary and unusual values next to ordinary ones (all distinct)
+GID_POOL = [0, 1, 2, 3, 6, 7, 9, 10, 99, 100, 101, 255, 256, 1000, 4512, 65535, 65536, 99999, 2 ** 31 - 1, 2 ** 31, 2 ** 63,
+            10 ** 20]
+
+
 def schedule_cases(rng, tier):
     """(labels, lines): lists of sentences with group structure; each case = list of (line, group key or None,
     index in group)"""
@@ -21,8 +26,11 @@ def schedule_cases(rng, tier):
         sizes_list += [(3, 3, 3), (4, 2), (2, 2, 3)]
     for sizes in sizes_list:
         groups = []
+        gids = rng.sample(GID_POOL, len(sizes))
+        if sizes in ((2,), (3,), (2, 2)):
+            gids[0] = 0              # group id 0 is an ordinary id
         for gi, t in enumerate(sizes):
-            gid = 100 + gi
+            gid = gids[gi]
             sents = [make_sentence(rng, b'g:%d-%d-%d,s:x%d' % (i + 1, t, gid, i)) for i in range(t)]
             groups.append((gid, t, sents))
         ungrouped = make_sentence(rng, None)
@@ -47,11 +55,14 @@ def schedule_cases(rng, tier):
     for _ in range(200 if tier == 'quick' else 5000):
         ng = rng.randint(1, 5)
         seqs, tots = [], {}
+        gids = rng.sample(GID_POOL + list(range(200, 210)), ng)
         for gi in range(ng):
             t = rng.randint(1, 6)
-            gid = 200 + gi
+            gid = gids[gi]
             tots[gid] = t
-            sents = [make_sentence(rng, b'g:%d-%d-%d' % (i + 1, t, gid)) for i in range(t)]
+            # leading zeros are legal decimal renderings of the same numbers
+            fmt = rng.choice([b'g:%d-%d-%d', b'g:%d-%d-%d', b'g:%02d-%02d-%05d', b's:st,g:%d-%d-%d,n:7'])
+            sents = [make_sentence(rng, fmt % (i + 1, t, gid)) for i in range(t)]
             rest = sents[1:]
             rng.shuffle(rest)
             seqs.append([(s, gid) for s in [sents[0]] + rest])
@@ -98,6 +109,18 @@ class Prop:
             'sentence); non-trivial = at least one multi-sentence group')
     assumptions = ['group ids are unique per group within a schedule; the first sentence of a group arrives before its others']
 
+    def check_case(self, ctx, fe, case, tots, o):
+        got = [(i, [x for x in lst]) for i, lst in parse_tbq(o)]
+        # the tag block queue stores the sentence objects; raw of a sentence = the line without its tag block
+        exp = [(i, [l[l.index(b'\\', 1) + 1:] if l.startswith(b'\\') else l for l in lst])
+               for i, lst in expected(case, tots)]
+        if got != exp:
+            ctx.fail('tag block queue deliveries differ from "complete, once, unmixed, at the last sentence"',
+                     {'frontend': fe, 'lines': [l.hex() for l, _ in case], 'gids': [g for _, g in case],
+                      'tots': {str(k): v for k, v in tots.items()}},
+                     [(i, len(l)) for i, l in exp], [(i, len(l)) for i, l in got],
+                     {'kind': 'groups', 'frontend': fe.split()[0]})
+
     def run(self, ctx):
         rng = ctx.rng('c17')
         cases = schedule_cases(rng, ctx.tier)
@@ -108,20 +131,15 @@ class Prop:
                             nontrivial=lambda l, o: '|' in o)
             for (label, case, tots), o in zip(sub, outs):
                 ctx.count(label)
-                got = [(i, [x for x in lst]) for i, lst in parse_tbq(o)]
-                # the tag block queue stores the sentence objects; raw of a sentence = the line without its tag block
-                exp = [(i, [l[l.index(b'\\', 1) + 1:] if l.startswith(b'\\') else l for l in lst])
-                       for i, lst in expected(case, tots)]
-                if got != exp:
-                    ctx.fail('tag block queue deliveries differ from "complete, once, unmixed, at the last sentence"',
-                             {'frontend': fe, 'lines': [l.hex() for l, _ in case]},
-                             [(i, len(l)) for i, l in exp], [(i, len(l)) for i, l in got],
-                             {'kind': 'groups', 'frontend': fe.split()[0]})
+                self.check_case(ctx, fe, case, tots, o)
 
     def replay(self, ctx, payload):
         inp = payload['failure']['input']
-        print(impl.step('%s %s' % (inp['frontend'], ' '.join(inp['lines'])))[:2000])
-        return True
+        case = [(bytes.fromhex(l), g) for l, g in zip(inp['lines'], inp['gids'])]
+        tots = {int(k): v for k, v in inp['tots'].items()}
+        o = impl.step('%s %s' % (inp['frontend'], ' '.join(inp['lines'])))
+        self.check_case(ctx, inp['frontend'], case, tots, o)
+        return not ctx.failures
 
 
 PROP = Prop()
